@@ -1478,6 +1478,30 @@ def external_call(E, name, ext, e, recv=None, args=None, kwargs=None):
         if oc.get("ensures"):
             E.prune()
         raise RaiseEx(cls, exc, e)
+    if ext.get("kind") == "rec_get":
+        # root[key] on a record with a CONSTANT key, as the repository's `_r(root, key, mandatory=..., default_value=...)` helper does it
+        # (that helper is under contract itself; this is its contract instantiated for a record-typed root)
+        root, key = args[0], args[1]
+        if key.py is None or not (isinstance(root.ty, tuple) and root.ty[0] == "rec"):
+            raise OutOfSubset(f"{name}: needs a record root and a constant key")
+        mandatory = kwargs.get("mandatory", args[3] if len(args) > 3 else vbool(True))
+        dflt = kwargs.get("default_value", args[4] if len(args) > 4 else NONE)
+        fields_ = rec_fields(root.ty)
+        present = z3.BoolVal(False)
+        if key.py in fields_:
+            present = E.hread(f"has.{key.py}", B, root.z) if key.py in rec_optional(root.ty) else z3.BoolVal(True)
+        mand = z3.simplify(E.truthy(mandatory))
+        if z3.is_false(mand) and key.py in fields_:
+            # optional lookup: merged (no path split): the entry if present, else the default
+            try:
+                return E.merge(present, E.fld_read(root, key.py), dflt)
+            except NeedFork:
+                pass
+        if E.branch(present):
+            return E.fld_read(root, key.py)
+        if E.branch(E.truthy(mandatory)):
+            raise RaiseEx(canon_class(E, ext.get("raises", "KeyError")), opaque_exception(E, canon_class(E, ext.get("raises", "KeyError"))), e)
+        return dflt
     if ext.get("ghost_get"):
         res = st.vars[ext["ghost_get"]]
         if ext.get("ghost_set"):
